@@ -648,6 +648,7 @@ func TestSched(t *testing.T) {
 	runValidate(t)
 	runDeploy(t)
 	runRealloc(t)
+	runPdq(t)
 }
 
 func mkNode(cores int, share int, used map[string]int, mem, umem int64) *ctypes.NodeResourceInfo {
@@ -1420,4 +1421,140 @@ func runRealloc(t *testing.T) {
 		emit(reallocCase{info: info, base: base, maxShare: maxShare, origin: origin, raw: raw, label: "random"})
 	}
 	r.Finish("corpus (keep-bind grow/shrink, unbind, too much, shrink below one piece), then random Validate-accepted nodes with an origin workload (70% bound to 1-2 cores of the node, usage raised to include it, NUMA node recorded when its cores agree) and request deltas (cpu +/-/to zero, memory +/-), keep-cpu-bind / cpu-bind / neither; Plugin.CalculateRealloc through the public API on embedded etcd. Non-trivial = realloc succeeded")
+}
+
+
+// ---------- stream "pdq": sort.Slice itself ----------
+
+func runPdq(t *testing.T) {
+	r := vh.New(t, vh.PropEnv("C04"), "pdq")
+	r.Coq("From Verif Require Import Base.GoFloat Cpumem.Types Cpumem.Schedule Cpumem.Calc Cpumem.SchedCase.\nClose Scope Z_scope.", "SchedCase.qcase", "SchedCase.q_agree", "SchedCase.q_ok")
+	g := gen{r}
+	type el struct{ key, idx int }
+	emit := func(keys []int, kind string) {
+		xs := make([]el, len(keys))
+		for i, k := range keys {
+			xs[i] = el{k, i}
+		}
+		sort.Slice(xs, func(i, j int) bool { return xs[i].key < xs[j].key })
+		ks, obs := make([]int64, len(keys)), make([]int64, len(keys))
+		for i := range keys {
+			ks[i], obs[i] = int64(keys[i]), int64(xs[i].idx)
+		}
+		r.Count("kind=" + kind)
+		switch n := len(keys); {
+		case n <= 12:
+			r.Count("len<=12")
+		case n < 50:
+			r.Count("len=13..49")
+		default:
+			r.Count("len>=50")
+		}
+		r.Add(fmt.Sprintf("(mkQ %s %s)", vh.ZList(ks), vh.ZList(obs)), map[string]any{"kind": kind, "keys": keys, "order": obs}, map[string]any{"stream": "pdq"}, len(keys) > 12)
+	}
+	mk := func(n int, kind string) []int {
+		ks := make([]int, n)
+		m := 1 + g.intn(n+1)
+		for i := range ks {
+			switch kind {
+			case "random":
+				ks[i] = g.intn(4 * (n + 1))
+			case "fewdistinct":
+				ks[i] = g.intn(1 + m%5)
+			case "sorted":
+				ks[i] = i / (1 + m%3)
+			case "reversed":
+				ks[i] = (n - i) / (1 + m%3)
+			case "equal":
+				ks[i] = 7
+			case "sawtooth":
+				ks[i] = i % (2 + m%9)
+			case "organpipe":
+				if i < n/2 {
+					ks[i] = i
+				} else {
+					ks[i] = n - i
+				}
+			case "nearlysorted":
+				ks[i] = i
+			case "pushfront":
+				ks[i] = i + 1
+			}
+		}
+		switch kind {
+		case "nearlysorted":
+			for s := 0; s < 1+m%4 && n > 1; s++ {
+				a, b := g.intn(n), g.intn(n)
+				ks[a], ks[b] = ks[b], ks[a]
+			}
+		case "pushfront":
+			if n > 0 {
+				ks[n-1] = 0
+			}
+		}
+		return ks
+	}
+	// McIlroy's adversary run against sort.Slice itself: the key array it leaves behind makes
+	// the same (deterministic) sort take its worst path again: unbalanced partitions,
+	// breakPatterns and finally the heapsort fall-back
+	killer := func(n int) []int {
+		gas := n
+		val := make([]int, n)
+		for i := range val {
+			val[i] = gas
+		}
+		items := make([]int, n)
+		for i := range items {
+			items[i] = i
+		}
+		nsolid, candidate := 0, 0
+		sort.Slice(items, func(i, j int) bool {
+			x, y := items[i], items[j]
+			if val[x] == gas && val[y] == gas {
+				if x == candidate {
+					val[x] = nsolid
+				} else {
+					val[y] = nsolid
+				}
+				nsolid++
+			}
+			if val[x] == gas {
+				candidate = x
+			} else if val[y] == gas {
+				candidate = y
+			}
+			return val[x] < val[y]
+		})
+		return val
+	}
+	kinds := []string{"random", "fewdistinct", "sorted", "reversed", "equal", "sawtooth", "organpipe", "nearlysorted", "pushfront"}
+	for _, n := range []int{0, 1, 2, 12, 13, 14, 49, 50, 51, 64, 100} {
+		for _, k := range kinds {
+			emit(mk(n, k), k)
+		}
+	}
+	for _, n := range []int{13, 20, 33, 50, 64, 100, 128, 200, 300, 500} {
+		emit(killer(n), "killer")
+	}
+	n := r.N(150, 3000)
+	for i := 0; i < n; i++ {
+		var ln int
+		switch g.intn(4) {
+		case 0:
+			ln = 13 + g.intn(20)
+		case 1:
+			ln = 13 + g.intn(60)
+		case 2:
+			ln = 50 + g.intn(150)
+		default:
+			ln = g.intn(400)
+		}
+		if g.chance(0.1) {
+			emit(killer(13+ln), "killer")
+			continue
+		}
+		k := kinds[g.intn(len(kinds))]
+		emit(mk(ln, k), k)
+	}
+	r.Finish("sort.Slice on key lists with ties (original index as payload): fixed lengths around the algorithm's thresholds (12/13, 49/50) x 9 shapes, then random lengths up to 400 of random / few-distinct / sorted / reversed / all-equal / sawtooth / organ-pipe / nearly-sorted / push-front shapes; non-trivial = more than 12 elements (pdqsort proper)")
 }
